@@ -277,6 +277,11 @@ def oracles (prev s : St) (impl : List (String × String)) (prevDials : Nat := 0
   -- C01: a storage write must carry verified bytes
   let c01b := (commaList (get "sto")).filterMap fun c =>
     if c.startsWith "write:" && !c.endsWith ":ok" then some s!"C01 unverified-bytes-written call={c}" else none
+  -- C01: a peer that supplied a piece failing the hash check is banned (the model's ban list is what the
+  -- property demands; the implementation must have every one of them)
+  let implBanned := commaList (get "banned")
+  let c01d := if get "banned" = "" then [] else (s.banned.filter fun ip => !(implBanned.contains ip)).map fun ip =>
+    s!"C01 corrupt-sender-not-banned ip={ip}"
   -- C01/C03: have / bitfield / piece messages only for held, verified pieces
   let c01c := impl.flatMap fun (k, v) =>
     if k.startsWith "p" && (k.drop 1).toString.toNat?.isSome then
@@ -343,7 +348,7 @@ def oracles (prev s : St) (impl : List (String × String)) (prevDials : Nat := 0
   -- a reservation that is not given back starves later downloads of the session (C10: with the budget gone no
   -- idle peer is ever given a request again): the same event read as C10
   let c10 := c10 ++ (c17.map fun v => v.replace "C17 write-cache-reservations-unbalanced" "C10 write-cache-budget-not-returned")
-  c01a ++ c01b ++ c01c ++ c06 ++ c04 ++ c10 ++ c17 ++ c19 ++ c05 ++ c13
+  c01a ++ c01b ++ c01c ++ c01d ++ c06 ++ c04 ++ c10 ++ c17 ++ c19 ++ c05 ++ c13
 
 /-- C04: after the final phase (restart + honest seed answering every request) the torrent must be
 complete with correct files. -/
